@@ -123,5 +123,5 @@ def o7_9_confirm(v, out):
     """Native: three overlapping tables at three levels, manual compaction of everything; afterwards exactly one table is in the
     version and on disk and every key reads its newest value."""
     if out.get('_rc') != 0: return (True, 'native compaction panicked or failed: %s' % out.get('_stderr', '')[-300:])
-    bad = out.get('tables_after') != '1' or out.get('reads_ok') != 'true' or out.get('files_on_disk') != '1'
-    return (bad, 'tables in the version before / after the compaction: %s / %s, table files on disk: %s, newest values readable: %s' % (out.get('tables_before'), out.get('tables_after'), out.get('files_on_disk'), out.get('reads_ok')))
+    bad = out.get('tables_after') != '1' or out.get('reads_ok') != 'true' or out.get('files_on_disk') != '1' or out.get('split_outputs_wrong_reads', '0') != '0'
+    return (bad, 'tables in the version before / after the compaction: %s / %s, table files on disk: %s, newest values readable: %s; compaction with split outputs (%s tables): %s of 300 keys read wrongly' % (out.get('tables_before'), out.get('tables_after'), out.get('files_on_disk'), out.get('reads_ok'), out.get('split_outputs_tables'), out.get('split_outputs_wrong_reads')))
